@@ -129,8 +129,20 @@ def run_site(site: str, mode: Tuple, nfac: Tuple[int, int], pbase: int,
             return (p * a,)
         raise symnum.HarnessError(site)
 
-    with symnum.Shims(), im.Tables("absent"):
-        ex = explore(fn, max_paths=1500, query_timeout_ms=20000)
+    def guarded() -> Any:
+        # a rejected operation (FractionalDimensionError, TypeError) must not have registered
+        # anything on the way: keep what the constructor was handed before the exception
+        tables.reset()
+        try:
+            return fn()
+        except symnum.HarnessError:
+            raise
+        except Exception as e:
+            e._registered = [v for _, v in tables.models["Unit._known"].writes]  # type: ignore
+            raise
+
+    with symnum.Shims(), im.Tables("absent") as tables:
+        ex = explore(guarded, max_paths=1500, query_timeout_ms=20000)
     return ex, kinds
 
 
@@ -161,7 +173,7 @@ a, b = {a}, {b}
 try:
     r = {op}
 except measured.FractionalDimensionError as e:
-    print('rejected as fractional:', e); sys.exit(0)
+    print('rejected as fractional:', e); r = ()   # what it registered on the way stays registered
 rs = r if isinstance(r, tuple) else (r,)
 for u in rs:
     print(repr(u), 'dimension', u.dimension, 'consistent:', inv(u))
@@ -208,11 +220,16 @@ def worker(task: Tuple) -> Dict[str, Any]:
         key = (cfg, i)
         if p.exc is not None:
             if type(p.exc).__name__ in ("FractionalDimensionError",):
-                acc.ob("unsat", f"{cfg}#p{i}:rejected-no-construction", key)
-                continue
-            if isinstance(p.exc, TypeError) and site in ("pow", "root"):
+                registered = getattr(p.exc, "_registered", [])
+                if not registered:
+                    acc.ob("unsat", f"{cfg}#p{i}:rejected-no-construction", key)
+                    continue
+                # units registered before the rejection stay in the table: they must satisfy Inv
+                p = symnum.Path(p.pc, p.axioms, tuple(registered), None, p.decisions)
+            elif isinstance(p.exc, TypeError) and site in ("pow", "root"):
                 acc.ob("unsat", f"{cfg}#p{i}:rejected", key)
                 continue
+        if p.exc is not None:
             raise symnum.HarnessError(f"{cfg}: unexpected {p.outcome}: {p.exc}")
         for k, r in enumerate(p.result):
             goal = z3.And(*im.inv_terms(r))
